@@ -5,6 +5,7 @@ import (
 	"fmt"
 	mrand "math/rand"
 	"strings"
+	"time"
 
 	"verifharness/mon"
 	"verifharness/ref"
@@ -523,7 +524,7 @@ func c04(x *mon.Ctx) {
 				l.Status = "UpToDate"
 			}
 			if r.Intn(4) == 0 { // the date of a level is informational: any spelling, or none
-				l.TcbDate = []string{"2024-03-13", "<omit>", " ", "not a date", "2024-03-13T00:00:00+02:00"}[r.Intn(5)]
+				l.TcbDate = []string{"2024-03-13", "<omit>", " ", "not a date", "2024-03-13T00:00:00+02:00", "2031-06-01T00:00:00Z", "9999-12-31T23:59:59Z", "2030-01-01T00:00:01Z"}[r.Intn(8)]
 			}
 			w.Tcb.Levels = append(w.Tcb.Levels, l)
 		}
@@ -585,6 +586,56 @@ func c04(x *mon.Ctx) {
 		c.Expect = "accept"
 		check(x, n, c)
 		x.Require("identifier-with-other-characters", 1, n, n+1)
+	}
+	// ---- the date of a level says when that TCB was current; it is not a verdict. Whatever it says — long ago, the verification
+	//      instant, a second / a year / eight thousand years after it, nothing — a level's status decides: platform level and
+	//      module level, deciding level first or behind a newer level that does not match
+	{
+		r := x.Rand("level-dates")
+		n := 0
+		for _, tee1 := range []byte{0, 3} {
+			p := world.RandPlatform(r)
+			for i := range p.Comp { // room for a newer level above the platform's
+				p.Comp[i], p.TeeTcb[i] = byte(1+r.Intn(200)), byte(1+r.Intn(200))
+			}
+			p.TeeTcb[1] = tee1
+			w0 := world.Honest(r, world.HonestOpts{Shape: world.QuoteShape{AuthLen: 32}, Platform: p})
+			vt := w0.Times[world.TTcbInfo]
+			for _, date := range []string{"2023-02-15T00:00:00Z", vt.Format(time.RFC3339), vt.Add(time.Second).Format(time.RFC3339), vt.Add(90 * world.Day).Format(time.RFC3339), "2099-01-01T00:00:00Z", "9999-12-31T23:59:59Z", "<omit>"} {
+				for _, st := range world.Statuses {
+					for _, where := range []string{"platform-level-first", "platform-level-behind-a-newer-one", "module-level"} {
+						if where == "module-level" && tee1 == 0 {
+							continue
+						}
+						w := w0.Clone()
+						match := world.Level{Sgx: w.P.Comp, Pce: w.P.PceSvn, Tdx: w.P.TeeTcb, Status: "UpToDate", TcbDate: date}
+						newer := match
+						newer.Sgx[3]++
+						switch where {
+						case "platform-level-first":
+							match.Status = st
+							w.Tcb.Levels = []world.Level{match}
+						case "platform-level-behind-a-newer-one":
+							match.Status = st
+							w.Tcb.Levels = []world.Level{newer, match}
+						default:
+							w.Tcb.Levels = []world.Level{newer, match}
+							w.Tcb.Mods = []world.ModIdent{{ID: fmt.Sprintf("TDX_%02x", tee1), Levels: []world.IsvLevel{
+								{Isv: uint32(w.P.TeeTcb[0]) + 1, Status: "UpToDate", TcbDate: date}, {Isv: uint32(w.P.TeeTcb[0]), Status: st, TcbDate: date}}}}
+						}
+						w.Resign()
+						c := w.Case(world.LColl, "level-dates", fmt.Sprintf("tee1=%d/%s/%s/date=%s", tee1, where, st, date))
+						c.Expect, c.ShadowSkip = "reject", true
+						if st == "UpToDate" {
+							c.Expect = "accept"
+						}
+						check(x, n, c)
+						n++
+					}
+				}
+			}
+		}
+		x.Require("level-dates", n/7, n*6/7, n)
 	}
 	// ---- a PCK certificate whose SVNs are NEGATIVE DER integers (02 01 C8 is -56, not 200; 02 02 FF 38 is -200): such a
 	//      platform meets no level — the certificate is malformed — whatever the levels ask for
